@@ -1545,6 +1545,13 @@ func (l *lexer) linebreak() bool {
 			// comment
 			hash = true
 			l.mark(-1)
+		case '\t', ' ':
+			// <blank>
+			if hash {
+				l.b.WriteRune(r)
+			} else {
+				l.mark(0)
+			}
 		default:
 			if !hash {
 				l.unread()
